@@ -54,7 +54,7 @@ def check(ctx, rng, n, extra_cases=()):
         else:
             d = {"half": 0.5, "dense": 0.85}[mode]
             ev = [e for e in rwfrag.FRAG_EVENTS if rng.random() < d] or [rng.choice(rwfrag.FRAG_EVENTS)]
-        cases.append({"src": g.program(), "events": ev, "guards": rng.random() < 0.5, "overrides": []})
+        cases.append({"src": g.program(doc=rng.random() < 0.2, look_alike=False), "events": ev, "guards": rng.random() < 0.5, "overrides": []})
     # first pass (observing) to learn which (event, node) pairs occur; then choose overrides among them
     def run(cs):
         out = []
